@@ -74,26 +74,40 @@ Utf8(s) == IF \A i \in 1..Len(s) : s[i] < 128 THEN s ELSE Utf8Rec(s)
 (***************************************************************************)
 MaxBase(lvl, isdir) == IF lvl = 1 THEN 8 ELSE IF isdir THEN 31 ELSE 30
 
-\* utils.truncate_basename: truncate FIRST, then upper-case, then substitute
+\* utils.truncate_basename: basename[:maxlen].upper()[:maxlen], then substitute - truncate,
+\* upper-case, truncate AGAIN (upper-casing may lengthen the string), substitute 1:1
 TruncBase(s, lvl, isdir) ==
-    IF lvl = 4 THEN s ELSE Subst(UpperSeq(Take(s, MaxBase(lvl, isdir))))
+    IF lvl = 4 THEN s
+    ELSE LET m == MaxBase(lvl, isdir) IN Subst(Take(UpperSeq(Take(s, m)), m))
 
 \* orig.split('.'): ext is what follows the last dot, base what precedes it
+\* (orig[:len(orig) - len(ext) - 1])
 ExtOf(s)  == LET d == LastIndexOf(s, DOT) IN SubSeq(s, d + 1, Len(s))
 BaseOf(s) == LET d == LastIndexOf(s, DOT) IN SubSeq(s, 1, d - 1)
 
 VerOne == <<SEMI, 49>>     \* ";1"
 
+\* orig.replace(';', '_'): level 4 allows anything but the separator of the version
+NoSemi(s) == [i \in 1..Len(s) |-> IF s[i] = SEMI THEN ChUnder ELSE s[i]]
+
 \* utils.mangle_file_for_iso9660 -> <<basename, extension>>
+\*  level 4: ';' replaced, then split at the last dot, nothing else
+\*  levels 1-3: the extension is kept iff it has 1..3 characters, its upper-casing has at most
+\*  3 and needs no substitution; otherwise it is part of the base name.  The base name goes
+\*  through truncate_basename; at levels 2 and 3 it is then cut to 30 - len(extension).
 MangleFileParts(orig, lvl) ==
     IF lvl = 4
-    THEN IF ~Has(orig, DOT) THEN <<orig, <<>> >> ELSE <<BaseOf(orig), ExtOf(orig)>>
-    ELSE IF ~Has(orig, DOT) THEN <<TruncBase(orig, lvl, FALSE), VerOne>>
-    ELSE LET ext    == ExtOf(orig)
-             tmpext == UpperSeq(ext)
-             extok  == Len(ext) # 0 /\ Len(ext) <= 3 /\ NumSub(tmpext) = 0
-         IN IF extok THEN <<TruncBase(BaseOf(orig), lvl, FALSE), tmpext \o VerOne>>
-            ELSE <<TruncBase(orig, lvl, FALSE), VerOne>>
+    THEN LET o4 == NoSemi(orig)
+         IN IF ~Has(o4, DOT) THEN <<o4, <<>> >> ELSE <<BaseOf(o4), ExtOf(o4)>>
+    ELSE LET ext      == ExtOf(orig)
+             tmpext   == UpperSeq(ext)
+             extok    == /\ Has(orig, DOT)
+                         /\ Len(ext) # 0 /\ Len(ext) <= 3
+                         /\ NumSub(tmpext) = 0 /\ Len(tmpext) <= 3
+             validext == IF extok THEN tmpext ELSE <<>>       \* (no substitution: Subst is the identity)
+             basename == IF extok THEN BaseOf(orig) ELSE orig
+             vb       == TruncBase(basename, lvl, FALSE)
+         IN <<IF lvl \in {2, 3} THEN Take(vb, 30 - Len(validext)) ELSE vb, validext \o VerOne>>
 
 \* facade.iso_path_to_rr_name / _rr_path_to_iso_path_and_rr_name: '.'.join([basename, ext])
 JoinFacade(p) == p[1] \o <<DOT>> \o p[2]
@@ -162,6 +176,7 @@ MangledCharsetLegal(out, lvl, kind) ==
 WhyIllegal(s, out, lvl, kind) ==
        (IF lvl = 4 /\ kind = "file" /\ Has(s, SEMI) THEN {"Level4Semicolon"} ELSE {})
   \cup (IF IsDotName(out) THEN {"DotName"} ELSE {})
+  \cup (IF out = <<1>> THEN {"ReservedIdentifier"} ELSE {})
   \cup (IF lvl < 4 /\ (IF kind = "dir" THEN Len(out) > MaxBase(lvl, TRUE)
                        ELSE LET p == SplitIso(out) IN
                             Len(p.name) > MaxBase(lvl, FALSE) \/ Len(p.ext) > 3)
